@@ -181,8 +181,10 @@ def matOf (bt : Nat) (t : Int) : Option (List (List Int)) :=
 def pensOf (bt : Nat) (t : Int) : Option (Int × Int × Int) :=
   (alnParamInit bt t (-1) (-1) (-1)).map fun p => (p.gpo, p.gpe, p.tgpe)
 
+/-- the nucleotide alphabet has five internal symbols (A, C, G, T/U and N, which stands for every ambiguity code): the documented
+5 match / -4 mismatch holds for every pair of them, N included (N against N is a match, N against a base a mismatch) -/
 def nucMatrixOK (m : List (List Int)) : Bool :=
-  (List.range 4).all fun i => (List.range 4).all fun j =>
+  (List.range 5).all fun i => (List.range 5).all fun j =>
     (m.getD i []).getD j 0 == (if i == j then 5000 else -4000)
 
 /-- (a) README: `dna` = match 5, mismatch -4, gap open 8, extension 6, terminal 0 -/
